@@ -31,6 +31,9 @@ def run_case(ctx, case):
         rec.count("operands", ("rat" if A[2] else "poly") + "-" + ("rat" if B[2] else "poly"))
         if (A[0][0], A[0][-1]) == (B[0][0], B[0][-1]):
             impl(lambda: BINOPS[op](float_twin(*A), float_twin(*B)))      # float data first (cross-call caches)
+            ta, tb = mixed_twins(*A), mixed_twins(*B)
+            if ta and tb:
+                impl(lambda: BINOPS[op](ta[-1], tb[-1]))                   # int / float knots with exact points
         r = impl(lambda: BINOPS[op](ca, cb))
         if curve_state(ca) != sa or curve_state(cb) != sb:
             rec.violation("operator %s modified an operand" % op, case)
